@@ -42,7 +42,8 @@ pub fn scenario(sub: u64) -> Option<(String, bool, u64)> {
     let delayed = rng.chance(1, 2);
     // 0 drop, 1 cancel + read terminal + drop, 2 cancel twice then drop,
     // 3 drop while the server answers the Cancel with Connection.Close, 4 ... with Channel.Close
-    let mode = rng.below(5);
+    // 5 the consumer is dropped while its thread is unwinding from a panic (caught)
+    let mode = rng.below(6);
     let pre = rng.range(0, 3);
     let (stream, peer) = mock_pair();
     let broker = Broker::start(peer.clone(), BrokerCfg { on_cancel: if mode == 3 { 1 } else if mode == 4 { 2 } else { 0 }, ..BrokerCfg::default() });
@@ -77,6 +78,13 @@ pub fn scenario(sub: u64) -> Option<(String, bool, u64)> {
     let mut a_seen: Vec<u64> = Vec::new();
     match mode {
         0 | 3 | 4 => drop(a),
+        5 => {
+            let r = std::panic::catch_unwind(std::panic::AssertUnwindSafe(move || {
+                let _owned = a;
+                panic!("worker failed");
+            }));
+            let _ = r;
+        }
         1 => {
             let _ = a.cancel();
             while let Ok(m) = a.receiver().recv_timeout(Duration::from_millis(500)) {
@@ -99,7 +107,7 @@ pub fn scenario(sub: u64) -> Option<(String, bool, u64)> {
         amiquip::verif::set_sched_delay(2, 0);
     }
     // the bystanders still work (where the scenario leaves them a channel)
-    if mode < 3 {
+    if mode < 3 || mode == 5 {
         peer.push_frames(&delivery(id1, &tb, dtag, b"b2"));
         expect_b.push(dtag);
         dtag += 1;
@@ -174,7 +182,7 @@ pub fn run(a: &Args) {
     for s in subs {
         match scenario(s) {
             Some((term, delayed, mode)) => {
-                sink.count(["drop", "cancel-read-drop", "cancel-twice-drop", "drop-vs-server-connection-close", "drop-vs-server-channel-close"][mode as usize]);
+                sink.count(["drop", "cancel-read-drop", "cancel-twice-drop", "drop-vs-server-connection-close", "drop-vs-server-channel-close", "drop-while-unwinding"][mode as usize]);
                 if delayed {
                     sink.count("io-thread-slow-between-reply-and-notice");
                 }
